@@ -109,6 +109,12 @@ def alarms(args):
                 b = os.path.join(TARGET, "debug" if prof == "dev" else "release", "midisim")
                 rc, out, err = sh([b, "run", "--property", p, "--tier", tier, "--seed", str(s), "--profile", prof, "--replay-dir", tmp, "--known", os.path.join(VERIF, "known_findings.json")])
                 n += 1
+                if rc == 0 and p != "C18":
+                    # the same seed in the prod build configuration (as ./check does)
+                    pb = os.path.join(TARGET, "prod", "midisim")
+                    rc, out2, err2 = sh([pb, "run", "--property", p, "--tier", tier, "--seed", str(s), "--profile", "prod", "--runs", "100000", "--replay-dir", tmp, "--known", os.path.join(VERIF, "known_findings.json")])
+                    out += out2
+                    err += err2
                 if rc != 0 or "VIOLATION" in out:
                     bad += 1
                     print(flush=True, *[f"ALARM seed={s} property={p} rc={rc}\n{out}\n{err}"])
